@@ -665,6 +665,10 @@ def fwd_position(m: Model, d: Data, factorize: bool = True):
     else:
       collision_driver.collision(m, d)
 
+  if m.neq > 0:
+    # equality rows subtract Jdot*qvel from their reference acceleration, which reads cvel and cdof_dot: compute
+    # them for the current state here (fwd_velocity recomputes the same values), not the previous call's
+    smooth.com_vel(m, d)
   constraint.make_constraint(m, d)
 
   if sleep_enabled:
